@@ -20,6 +20,7 @@ import (
 //	JE<c>[@a]  Join, select, error reply            JX<c>  Join, select, context cancelled
 //	LU<c>      Leave, select, unavailable presence of the address the channel holds
 //	LE<c>      Leave, select, error reply           LX<c>  Leave, select, context cancelled
+//	JP<c>[@a]  Join, select — left pending     EJ<c>  error reply to the pending Join
 //	U<a> A<a>  presence from address a
 type macro struct {
 	op   string
@@ -63,6 +64,16 @@ func (x *run) macro(m macro) {
 		default:
 			x.act("Xj" + c)
 		}
+	case "JP":
+		j := "J" + c
+		if m.a >= 0 {
+			j += "@" + strconv.Itoa(m.a)
+		}
+		if x.act(j) && x.jst[m.c] != "idle" {
+			x.act("s" + c)
+		}
+	case "EJ":
+		x.act("Ej" + c)
 	case "LU", "LE", "LX":
 		if !x.act("L" + c) {
 			return
@@ -91,11 +102,11 @@ func runMacroCase(r *common.Run, addrs []int, ms []macro, class string) {
 
 // alphabet of macro operations for a configuration; full adds the cancel outcomes and
 // the occupant presence.
-func macroAlphabet(addrs []int, full bool) []macro {
+func macroAlphabet(addrs, nicks []int, full bool) []macro {
 	var out []macro
 	seen := map[int]bool{}
 	var all []int
-	for _, a := range addrs {
+	for _, a := range append(append([]int(nil), addrs...), nicks...) {
 		if !seen[a] {
 			seen[a] = true
 			all = append(all, a)
@@ -104,7 +115,7 @@ func macroAlphabet(addrs []int, full bool) []macro {
 	for c, a0 := range addrs {
 		out = append(out, macro{"JA", c, -1}, macro{"JE", c, -1}, macro{"LU", c, -1}, macro{"LE", c, -1})
 		if full {
-			out = append(out, macro{"JX", c, -1}, macro{"LX", c, -1})
+			out = append(out, macro{"JX", c, -1}, macro{"LX", c, -1}, macro{"JP", c, -1}, macro{"EJ", c, -1})
 		}
 		for _, a := range all {
 			if a != a0 && a%10 == a0%10 {
@@ -171,36 +182,53 @@ func macroLine(ms []macro) string {
 	return strings.Join(l, " ")
 }
 
-// runContention: the exhaustive part of the runner.
+// runContention: the exhaustive part of the runner, then random longer sequences over the
+// full alphabets.
 func runContention(r *common.Run) int {
 	type conf struct {
-		addrs  []int
-		full   bool
-		maxLen int
+		addrs, nicks []int
+		full         bool
+		maxLen       int
 	}
 	confs := []conf{
-		{[]int{0, 0}, false, 4},  // two channels for one occupant address
-		{[]int{0, 10}, false, 3}, // two nicknames of one room, each channel may ask for the other's
+		{[]int{0, 0}, nil, false, 4},       // two channels for one occupant address
+		{[]int{0, 0}, []int{10}, false, 3}, // … which may also ask for another nickname
+		{[]int{0, 10}, nil, false, 3},      // two nicknames of one room, each channel may ask for the other's
+		{[]int{0, 0}, nil, true, 3},        // with cancelled calls, joins left pending, occupant presences
 	}
 	if r.Tier == "thorough" {
 		confs = []conf{
-			{[]int{0, 0}, true, 4},
-			{[]int{0, 0}, false, 5},
-			{[]int{0, 10}, true, 4},
-			{[]int{0, 0, 10}, false, 4},
+			{[]int{0, 0}, nil, true, 4},
+			{[]int{0, 0}, nil, false, 5},
+			{[]int{0, 0}, []int{10}, false, 4},
+			{[]int{0, 10}, nil, true, 4},
+			{[]int{0, 0, 10}, nil, false, 4},
 		}
 	}
 	n := 0
+	stop := func() bool { return len(r.Failures) >= 80 || r.Hist["problem"] >= 25 }
 	for _, cf := range confs {
-		alpha := macroAlphabet(cf.addrs, cf.full)
+		alpha := macroAlphabet(cf.addrs, cf.nicks, cf.full)
 		enumMacros(alpha, cf.addrs, cf.maxLen, func(ms []macro) {
-			if len(r.Failures) >= 80 || r.Hist["problem"] >= 25 {
+			if stop() {
 				return
 			}
-			r.Mark("case contention %d (%s)", n, macroLine(ms))
+			r.Mark("case contention %d", n)
 			runMacroCase(r, cf.addrs, ms, "contention")
 			n++
 		})
+	}
+	rconfs := []conf{{[]int{0, 0}, []int{10}, true, 0}, {[]int{0, 10}, nil, true, 0}, {[]int{0, 0, 10}, nil, true, 0}, {[]int{0, 0}, nil, true, 0}}
+	for k := r.Pick(500, 8000); k > 0 && !stop(); k-- {
+		cf := rconfs[r.Rnd.Intn(len(rconfs))]
+		alpha := macroAlphabet(cf.addrs, cf.nicks, true)
+		var ms []macro
+		for i := 5 + r.Rnd.Intn(5); i > 0; i-- {
+			ms = append(ms, alpha[r.Rnd.Intn(len(alpha))])
+		}
+		r.Mark("case contention %d", n)
+		runMacroCase(r, cf.addrs, ms, "contention-random")
+		n++
 	}
 	return n
 }
